@@ -158,3 +158,30 @@ def spec(dem, params, regname=lambda p: p.region.name if p.region is not None el
             for k in range(W):
                 reads.add((regname(o), 8 * k))
     return writes, reads, '%s W=%d' % (op, W)
+
+
+def inplace_hyps(dem, params):
+    """in-place hypotheses the signature permits (see ext_spec.inplace_hyps): output aliased with an operand of the same
+    access kind when no offset / stride parameter is present"""
+    m = re.match(r'Goldilocks::(copy|add|sub|mul)_(avx512|avx|batch)\(', dem)
+    if not m or m.group(1) == 'copy':
+        return []
+    ps = [p for p in params if not p.is_this]
+    names = [p.name for p in ps]
+    if any(n.startswith('offset') or n.startswith('stride') for n in names):
+        return []
+    c = [p for p in ps if p.name in ROLE_C]
+    a = [p for p in ps if p.name in ROLE_A]
+    b = [p for p in ps if p.name in ROLE_B]
+    if len(c) != 1 or len(a) != 1 or len(b) != 1:
+        return []
+    c, a, b = c[0], a[0], b[0]
+    norm = lambda p: p.dty.replace(' const', '').replace(' ', '')
+    if norm(c) not in ('E*', 'V4&', 'V8&'):
+        return []
+    elig = [p.name for p in (a, b) if norm(p) == norm(c)]
+    hs = [{n: c.name} for n in elig]
+    if len(elig) == 2:
+        hs.append({elig[1]: elig[0]})
+        hs.append({elig[0]: c.name, elig[1]: c.name})
+    return hs
